@@ -26,7 +26,8 @@ ANCHORS = ['pycaption.dfxp.base:DFXPWriter._encode', 'pycaption.dfxp.base:DFXPWr
 THOROUGH_SCALE = 5        # random budgets of the thorough tier are multiplied by this
 REQUIRE = {'writes_' + w: 30 for w in W.WRITERS}
 REQUIRE.update({'captions_with_empty_lines': 50, 'captions_with_arrow': 10, 'captions_with_amp_or_lt': 100,
-                'captions_with_style_between_breaks': 5, 'lines_compared': 2000})
+                'captions_with_style_between_breaks': 5, 'lines_compared': 2000,
+                'sets_with_a_repeated_text': 100})
 
 
 def gen_caption_nodes(rng, tag, writer):
@@ -77,6 +78,11 @@ def gen_case(rng, tag, writer):
                 pass          # next caption shares the timespan
             else:
                 t += dur + rng.choice([0, 500000, 2000000])
+        if len(caps) >= 2 and rng.random() < 0.2:
+            # the same text twice in one language (texts are otherwise uniquely tagged)
+            i = rng.randrange(1, len(caps))
+            caps[i]['nodes'] = [list(n) for n in caps[rng.randrange(0, i)]['nodes']]
+            feats.add('repeated-text')
         spec['langs'].append({'lang': lang, 'layout': None, 'captions': caps})
     if any('class' in str(c['nodes']) for l in spec['langs'] for c in l['captions']):
         spec['styles'] = {'hl': {'color': 'yellow'}}
@@ -125,6 +131,8 @@ def check(case, ctx):
     ctx.count('writes_' + writer)
     if 'style-between-breaks' in case['features']:
         ctx.count('captions_with_style_between_breaks')
+    if 'repeated-text' in case['features']:
+        ctx.count('sets_with_a_repeated_text')
     for l in before['langs']:
         for c in l['captions']:
             raw = dump.text_lines(c['nodes'])
